@@ -8,7 +8,8 @@ from lib.framework import Prop, canon
 from oracle import rfc4515
 from props.filter_common import attrs_of, cps, parse_impl
 
-STRUCT = list("()&|!=*\\:~<>; \n\t\r\x00\x0b\x1c") + ["\u3000", "é", "\udcff", "\ud800", "\U0001f600", "dn", "(", ")"]
+STRUCT = list("()&|!=*\\:~<>; \n\t\r\x00\x0b\x1c") + ["\u3000", "é", "\udcff", "\ud800", "\U0001f600", "dn", "(", ")",
+                                                              "\\  ", "\\ 4", "\\4 ", "\\\t1", "\\+1", "\\-1", "\\0x", "\\1_", "\\٣٣", "\\ａ1", "\\4\n"]
 
 
 # characters that Unicode-aware matching (re.IGNORECASE, \d, \w, str.isalpha / isdigit) confuses with ASCII
@@ -57,7 +58,7 @@ class C15(Prop):
             "(objectClass\n=foo)", "(&(a=b)(c=d)", "(!" * 1000, "(!" * 3000 + "a=b" + ")" * 3000, "(\udcff=a)", "(a=\ud800)",
             "(cn=éé))", "(cn=éé)(", "(0=x)", "(attr:rule;option1:=value)", "", "   ", "(", ")", "()", "(&)", "(a=b))", "((a=b))",
             "(a=\\)", "(a=\\4)", "(a=b\\4g)", "(a:dn:=", "(:=x)", "(a::=x)", "(a:dn:dn:dn:=x)", "(a=**)", "(=x)", "a=b", "(a=b)\x1c",
-            "(:dn:=x)", ":dn:=x", "(&(:dn:=x))", "(|(a=b)(!(:dn:=x)))", "(:dn:=)", "(:dn:1.2:=x)", "(a;=b)", "(a;x-=b)", "(1.=b)", "(1..2=b)", "(01.2=b)", "(a b=c)", "(a=b\n)",
+            "(cn=\\  *smith)", "(cn=\\  *)", "(cn=a*\\  *b)", "(cn=\\ 4)", "(cn=\\+4)", "(cn=\\4_)", "(cn=\\٤١)", "(:dn:=x)", ":dn:=x", "(&(:dn:=x))", "(|(a=b)(!(:dn:=x)))", "(:dn:=)", "(:dn:1.2:=x)", "(a;=b)", "(a;x-=b)", "(1.=b)", "(1..2=b)", "(01.2=b)", "(a b=c)", "(a=b\n)",
         ]
         return [{"kind": "corpus", "text": t} for t in texts]
 
